@@ -28,6 +28,24 @@ EXPLANATION = (
 ASSUMPTIONS = ["doc markers are configurable strings of any length (settings schema: str)"]
 
 
+def comment_group_keys(ctx) -> List[str]:
+    """how the comment group of the doc-mark patterns can be referred to: its number and, if it has one, its quoted name"""
+    py, rx = ctx.py, ctx.rx
+    fn = py.func("reader._compile_docmark")
+    call = [c for c in py.walk_calls(fn) if call_name(c) == "re.compile"]
+    param = fn.args.args[0].arg
+    for cand in ([call[0].args[0]] + astq.expand_locals(call[0].args[0], fn)) if call else []:
+        p = py.eval_str(cand, {**py.module_env("reader"), param: "!"})
+        if p is not None:
+            fl = py.eval_flags(call[0].args[1] if len(call[0].args) > 1 else None)
+            try:
+                num, name = rx.group_starting_with(p, fl or 0, "!")
+            except rx.Unsupported:
+                break
+            return [str(num)] + ([repr(name), '"' + name + '"'] if name else [])
+    raise AnalysisError("_compile_docmark: the comment group of the pattern was not identified")
+
+
 def r1_one_docstring_read(ctx, rep):
     py, cs = ctx.py, ctx.cascade
     for q, n_expected in (("FortranBase.__init__", 1), ("sourceform.line_to_variables", 1),
@@ -51,6 +69,13 @@ def r1_one_docstring_read(ctx, rep):
         if isinstance(d, ast.Constant):
             defaults[a.arg] = d.value
     marker_p = rd.args.args[1].arg
+    # the full marker: the parameter itself (re-bound to "!" + marker) or a local built from it
+    markers = {marker_p}
+    for st in ast.walk(rd):
+        if isinstance(st, ast.Assign) and len(st.targets) == 1 and isinstance(st.targets[0], ast.Name) and \
+                any(isinstance(x, ast.Name) and x.id == marker_p for x in ast.walk(st.value)) and \
+                any(isinstance(x, ast.Constant) and isinstance(x.value, str) and "!" in x.value for x in ast.walk(st.value)):
+            markers.add(st.targets[0].id)
 
     def simplify(e: ast.AST) -> ast.AST:
         while isinstance(e, ast.IfExp):
@@ -65,16 +90,38 @@ def r1_one_docstring_read(ctx, rep):
     for sl in slices:
         for x in astq.expand_locals(sl.slice.lower, rd):
             x = simplify(x)
-            if isinstance(x, ast.Call) and call_name(x) == "len" and ast.unparse(x.args[0]) == marker_p:
+            if isinstance(x, ast.Call) and call_name(x) == "len" and ast.unparse(x.args[0]) in markers:
                 strip_ok = True
     removeprefix = any(isinstance(c, ast.Call) and isinstance(c.func, ast.Attribute) and c.func.attr == "removeprefix"
-                       and ast.unparse(c.args[0]) == marker_p for c in ast.walk(rd))
+                       and ast.unparse(c.args[0]) in markers for c in ast.walk(rd))
     tests = any(isinstance(c, ast.Call) and isinstance(c.func, ast.Attribute) and c.func.attr == "startswith"
-                and c.args and ast.unparse(c.args[0]) == marker_p for c in ast.walk(rd))
+                and c.args and ast.unparse(c.args[0]) in markers for c in ast.walk(rd))
     back = any(isinstance(c, ast.Call) and isinstance(c.func, ast.Attribute) and c.func.attr == "pass_back" for c in ast.walk(rd))
     ok = (strip_ok or removeprefix) and tests and back
     rep.ob("read_docstring strips len(marker) and passes back the first non-doc line", ok,
            "" if ok else f"strip by marker length: {strip_ok or removeprefix}; startswith(marker) test: {tests}; pass_back: {back}", py.nloc(rd))
+    # a declaration that is *skipped* (block-local) still owns the documentation lines that follow it: every `continue` inside
+    # the declaration arm has to be preceded by something that consumes them, otherwise they fall through to the top of the
+    # loop and are appended to the documentation of the enclosing unit
+    va = cs.arm_by_regex("VARIABLE_RE")
+    consumers = {"read_docstring", "line_to_variables"}
+    nskip = 0
+    for blk in ast.walk(ast.Module(body=va.body, type_ignores=[])):
+        for field_ in ("body", "orelse"):
+            stmts = getattr(blk, field_, None)
+            if not isinstance(stmts, list):
+                continue
+            for i, st in enumerate(stmts):
+                if isinstance(st, ast.Continue):
+                    nskip += 1
+                    before = [c for s_ in stmts[:i] for c in ast.walk(s_) if isinstance(c, ast.Call)]
+                    ok = any(call_name(c).split(".")[-1] in consumers or any(
+                        m in ast.unparse(c) for m in ("<inlined> line_to_variables", "<inlined> read_docstring")) for c in before)
+                    rep.ob("a skipped declaration consumes its documentation", ok,
+                           "the doc lines after the declaration are read before `continue`" if ok else
+                           "the declaration arm `continue`s without reading the documentation that follows the declaration: the "
+                           "`!! ...` lines of a variable declared inside a BLOCK construct become part of the enclosing "
+                           "procedure's documentation", py.nloc(st))
     # FINAL arm: only the last finaliser gets the reader
     fa = cs.arm_by_regex("FINAL_RE")
     withsrc = [c for c in fa.constructs if c.cls == "FortranFinalProc" and len(c.node.args) >= 3]
@@ -162,8 +209,13 @@ def r2_marker_length(ctx, rep):
         if ast.unparse(e.value.args[0]) in plain:
             end = marks[j + 1][0] if j + 1 < len(marks) else len(ev)
             seg = [x for x in ev[i + 1:end] if any(c == e.target for c in x.cond_texts())]
-            app = any(x.kind == "call" and call_name(x.node) == "self.docbuffer.append" and "group(4)" in x.text() for x in seg)
-            cutl = any(x.kind == "assign" and x.target == "line" and "start(4)" in x.text(x.value) for x in seg)
+            # the comment group of the plain doc-mark pattern, by number or by name
+            gkeys = comment_group_keys(ctx)
+            def refers(text: str, what: str) -> bool:
+                return any(f"{what}({k})" in text for k in gkeys) or (what == "group" and any(f"[{k}]" in text for k in gkeys))
+            app = any(x.kind == "call" and call_name(x.node) == "self.docbuffer.append" and refers(x.text(), "group") for x in seg)
+            cutl = any(x.kind == "assign" and x.target == "line" and any(
+                refers(ast.unparse(v), "start") for v in [x.value] + astq.expand_locals(x.value, fn)) for x in seg)
             cut = app and cutl
     rep.ob("reader: plain doc comment is cut at the marker position", bool(cut), "", py.nloc(fn))
     # alternate-block state resets: `reading_alt` back to 0 on a blank line (or a non-comment line)
@@ -279,39 +331,67 @@ def r6_shared_values_copied(ctx, rep):
 
 
 def r7_meta_key_guard(ctx, rep):
+    """a continuation line is only taken as metadata when a key is open, and the first line that is not metadata stays in the
+    text - decided on the path conditions of the stores, whatever the loop looks like"""
     py = ctx.py
-    mp = py.func("utils.meta_preprocessor")
-    loop = [n for n in mp.body if isinstance(n, ast.While)]
-    if not loop:
-        raise AnalysisError("meta_preprocessor: loop not found")
-    n = 0
-    for c in ast.walk(loop[0]):
-        if isinstance(c, ast.Call) and ast.unparse(c.func) == "meta[key].append":
-            n += 1
-            # dominated by an assignment to key in the same block, or guarded by a test of key
-            p = c
-            guarded = False
-            while p is not loop[0]:
-                child = p
-                p = py.parents[p]
-                if isinstance(p, ast.If) and child in p.body:
-                    t = ast.unparse(p.test)
-                    if re.search(r"\band key\b|\bkey is not None\b|^key$|\bkey and\b", t):
-                        guarded = True
-                    blk = p.body
-                    idx = blk.index(child) if child in blk else 0
-                    if any(isinstance(s, ast.Assign) and ast.unparse(s.targets[0]) == "key" for s in blk[:idx]):
-                        guarded = True
-            rep.ob(f"meta_preprocessor: meta[key].append #{n} has an open key", guarded,
-                   "a continuation line is only taken when a metadata key is open" if guarded else
-                   "`meta[key].append(...)` can run while key is None: a doc comment whose first line is indented by four "
-                   "blanks (a code block) is swallowed as metadata of key None and dropped", py.nloc(c))
-    putback = [c for c in py.walk_calls(loop[0]) if isinstance(c.func, ast.Attribute) and c.func.attr in ("insert", "appendleft")
+    mp = py.ifunc("utils.meta_preprocessor")
+    ev = astq.trace(mp)
+    tables = set()
+    for r in astq.returns(mp):
+        first = r.elts[0] if isinstance(r, ast.Tuple) and r.elts else r
+        if isinstance(first, ast.Name):
+            tables.add(first.id)
+    stores = [e for e in ev if e.kind == "call" and isinstance(e.node.func, ast.Attribute) and e.node.func.attr in ("append", "extend")
+              and isinstance(e.node.func.value, ast.Subscript) and isinstance(e.node.func.value.value, ast.Name)
+              and e.node.func.value.value.id in tables]
+    if not stores:
+        raise AnalysisError("meta_preprocessor: no store into the metadata table found")
+
+    def atom(t):
+        if isinstance(t, ast.Name) and t.id == keyname:
+            return ("open", True)
+        if isinstance(t, ast.Compare) and len(t.ops) == 1 and isinstance(t.left, ast.Name) and t.left.id == keyname and \
+                isinstance(t.comparators[0], ast.Constant) and t.comparators[0].value is None:
+            return ("open", isinstance(t.ops[0], (ast.IsNot, ast.NotEq)))
+        return None
+    for n, e in enumerate(stores, 1):
+        keyname = ast.unparse(e.node.func.value.slice)
+        # set on this very path (`key = ...; meta[key].append(...)`) or tested
+        i = ev.index(e)
+        own = [(id(t), p) for t, p, _ in e.conds]
+        set_here = any(x.kind == "assign" and x.target == keyname and [(id(t), p) for t, p, _ in x.conds] == own[:len(x.conds)]
+                       and len(x.conds) >= 1 and x.conds[-1][0] is e.conds[len(x.conds) - 1][0] for x in ev[:i]
+                       if len(x.conds) <= len(e.conds))
+        guarded = set_here or astq.path_implies(e, atom, {"open": True}) is True
+        rep.ob(f"meta_preprocessor: meta[key].append #{n} has an open key", guarded,
+               "a continuation line is only taken when a metadata key is open" if guarded else
+               "`meta[key].append(...)` can run while key is None: a doc comment whose first line is indented by four "
+               "blanks (a code block) is swallowed as metadata of key None and dropped", py.nloc(e.node))
+    # the first non-metadata line: put back (`lines.insert(0, line)`), or never removed (the block is cut off afterwards by
+    # a counter that the "no metadata" exit does not advance)
+    lines_p = mp.args.args[0].arg
+    putback = [c for c in py.walk_calls(mp) if isinstance(c.func, ast.Attribute) and c.func.attr in ("insert", "appendleft")
                and c.args and ast.unparse(c.args[0]) in ("0",)]
-    ok = bool(putback) and any(isinstance(x, ast.Break) for x in ast.walk(loop[0]))
-    rep.ob("meta_preprocessor: the first non-metadata line is put back", ok, "", py.nloc(loop[0]))
-    if n == 0:
-        raise AnalysisError("meta_preprocessor: no meta[key].append found")
+    cut = [d for d in ast.walk(mp) if isinstance(d, ast.Delete) and any(
+        isinstance(t, ast.Subscript) and isinstance(t.slice, ast.Slice) and isinstance(t.slice.upper, ast.Name) for t in d.targets)]
+    ok = bool(putback) and any(isinstance(x, ast.Break) for x in ast.walk(mp))
+    if not ok and cut:
+        counter = cut[0].targets[0].slice.upper.id
+        # every `break` that leaves the loop because the line is *not* metadata (i.e. not the blank/terminator exit) must not be
+        # preceded, in its block, by an increment of the counter
+        ok = True
+        for blk in ast.walk(mp):
+            for fld in ("body", "orelse"):
+                stmts = getattr(blk, fld, None)
+                if isinstance(stmts, list) and any(isinstance(x, ast.Break) for x in stmts):
+                    k = next(i for i, x in enumerate(stmts) if isinstance(x, ast.Break))
+                    incremented = any(isinstance(x, ast.AugAssign) and ast.unparse(x.target) == counter for x in stmts[:k])
+                    is_terminator_exit = isinstance(blk, ast.If) and fld == "body" and any(
+                        isinstance(c, ast.Call) and isinstance(c.func, ast.Attribute) and c.func.attr in ("match", "strip")
+                        for c in ast.walk(blk.test)) and not any(isinstance(c, ast.NamedExpr) for c in ast.walk(blk.test))
+                    if incremented and not is_terminator_exit:
+                        ok = False
+    rep.ob("meta_preprocessor: the first non-metadata line is put back", ok, "", py.nloc(mp))
 
 
 def r5_index_after_delete(ctx, rep):
@@ -357,6 +437,109 @@ def r6_masking_cursor(ctx, rep):
     c20.r4_cursor_progress(ctx, rep)
 
 
+# entities that are shown by summary although no run-time test guards it, because their full text is rendered elsewhere
+SUMMARY_ONLY_OK = {
+    r"\.types\[\*\]\.variables\[\*\]$": "components of a derived type are documented in full on the type's own page",
+}
+
+
+def r8_summary_needs_a_page(ctx, rep):
+    """Where a macro chooses between an entity's whole documentation (`X.doc`) and its first paragraph (`X|meta('summary')`,
+    which ends in a "Read more" link to X's page), the summary branch may only be taken when X - or the entity on whose page X
+    is documented in full - is `visible`, i.e. has that page.  Otherwise everything after the first paragraph of the comment
+    appears nowhere.  The path conditions (with the callers' arguments substituted into the macros) are evaluated
+    propositionally."""
+    import types as _types
+    from . import c09
+    j = ctx.j
+    n = 0
+    seen = set()
+
+    # `{% import 'macros.html' as macros %}` (without context): inside the imported macros only the environment's globals and
+    # the globals handed to get_template() are defined; any other free name is Undefined, i.e. false
+    out_py = ctx.py.modules["output"]
+    glob = {"range", "dict", "lipsum", "cycler", "joiner", "namespace", "loop", "true", "false", "none", "True", "False", "None"}
+    for x in ast.walk(out_py):
+        if isinstance(x, ast.Subscript) and ast.unparse(x.value).endswith("env.globals") and isinstance(x.slice, ast.Constant):
+            glob.add(x.slice.value)
+        if isinstance(x, ast.keyword) and x.arg == "globals" and isinstance(x.value, ast.Call) and call_name(x.value) == "dict":
+            glob |= {k.arg for k in x.value.keywords if k.arg}
+    tdir = ctx.py.root / "ford" / "templates"
+    bound_cache: Dict[Tuple[str, str], tuple] = {}
+
+    def bound_in(tname: str, macro: str):
+        if (tname, macro) not in bound_cache:
+            src = (tdir / tname).read_text(encoding="utf-8")
+            imported = not re.search(r"\{%-?\s*extends\b", src)
+            m = re.search(r"\{%-?\s*macro\s+" + re.escape(macro) + r"\s*\(([^)]*)\)(.*?)\{%-?\s*endmacro", src, re.S)
+            names: set = set()
+            if m is None:
+                imported = False          # not a macro of this file: nothing is known about its scope
+            else:
+                names |= {a.split("=")[0].strip() for a in m.group(1).split(",") if a.strip()}
+                names |= set(re.findall(r"\{%-?\s*set\s+(\w+)", m.group(2)))
+                for f in re.finditer(r"\{%-?\s*for\s+([\w,\s()]+?)\s+in\b", m.group(2)):
+                    names |= set(re.findall(r"\w+", f.group(1)))
+            bound_cache[(tname, macro)] = (names, imported)
+        return bound_cache[(tname, macro)]
+
+    def to_py(text: str, tname: str = "", macro: str = ""):
+        try:
+            e = ast.parse(text.replace("[*]", "._each"), mode="eval").body
+        except SyntaxError:
+            return ast.Name(id="unparsed_" + str(abs(hash(text)) % 10 ** 8), ctx=ast.Load())
+        if tname:
+            names, imported = bound_in(tname, macro)
+            if imported:
+                class _U(ast.NodeTransformer):
+                    def visit_Attribute(self, node):
+                        return node          # `x.attr`: x is an object, not a free flag
+                    def visit_Call(self, node):
+                        return node
+                    def visit_Name(self, node):
+                        if node.id not in names and node.id not in glob:
+                            return ast.Constant(value=False)
+                        return node
+                e = _U().visit(e)
+        return e
+
+    def atom(t):
+        if isinstance(t, ast.Attribute) and t.attr == "visible":
+            return ("vis:" + ast.unparse(t.value), True)
+        return None
+    for tpl in c09.all_page_templates(ctx):
+        outs, _ = j.expand(tpl)
+        docs = {(o.sym[:-len(".doc")], tuple(o.macros)) for o in outs if o.sym.endswith(".doc")}
+        for o in outs:
+            if "<in-test>" in o.macros or not o.macros or "|meta('summary')" not in o.sym:
+                continue
+            target = o.sym.split("|meta('summary')")[0]
+            if (target, tuple(o.macros)) not in docs:
+                continue            # not a doc-or-summary choice
+            key = (o.template, o.lineno, target, tuple(c[0] for c in o.conds), tuple(c[1] for c in o.conds))
+            if key in seen:
+                continue
+            seen.add(key)
+            n += 1
+            ev = _types.SimpleNamespace(conds=[(to_py(c[0], o.template, o.macros[-1]), c[1], None) for c in o.conds])
+            tpy = ast.unparse(to_py(target))
+            owners = [tpy]
+            while "." in owners[-1]:
+                owners.append(owners[-1].rsplit(".", 1)[0])
+            verdicts = [astq.path_implies(ev, atom, {"vis:" + v: True}) for v in owners]
+            infeasible = all(v is None for v in verdicts)
+            excused = next((why for pat, why in SUMMARY_ONLY_OK.items() if re.search(pat, target)), None)
+            ok = infeasible or any(v is True for v in verdicts) or excused is not None
+            rep.ob(f"page={tpl} summary of {target} in macro {o.macros[-1]}", ok,
+                   ("branch not taken with these arguments" if infeasible else excused or "summary only for an entity with a page") if ok else
+                   f"`{o.src}` (ford/templates/{o.template}:{o.lineno}) is rendered under {[c[0] for c in o.conds if c[1]][-2:]} "
+                   f"without any test that {target} (or its owner) is visible: for an entity without a page of its own - a dummy "
+                   f"procedure, an internal procedure - only the first paragraph of its comment is shown anywhere",
+                   f"ford/templates/{o.template}:{o.lineno}", nontrivial=not infeasible)
+    if n < 10:
+        raise AnalysisError(f"only {n} doc-or-summary choices found in the templates")
+
+
 RULES = [
     RuleSpec("C03.R1", r1_one_docstring_read, "one docstring read and one registration per declaration", floor=8),
     RuleSpec("C03.R2", r2_marker_length, "marker-length agreement between sibling implementations", floor=4),
@@ -365,4 +548,5 @@ RULES = [
     RuleSpec("C03.R5", r5_index_after_delete, "no list index reused after deletion (admonitions)", floor=1),
     RuleSpec("C03.R6", r6_shared_values_copied, "per-statement values are copied per variable", floor=1),
     RuleSpec("C03.R7", r7_meta_key_guard, "metadata continuation needs an open key", floor=1),
+    RuleSpec("C03.R8", r8_summary_needs_a_page, "a summary replaces the full text only where the entity has a page", floor=10),
 ]
